@@ -601,9 +601,157 @@ def shapes(repo):
     return flags
 
 
+# ------------------------------------------------------------------ name mapping, vetted
+#
+# The identifiers of the generated text come from FortranNameManager / PythonNameManager, which
+# delegate to KeyToUniqueNameMap -> make_identifier_from_name -> pytools.UniqueNameGenerator.
+# Two fail-closed facts:
+#
+# (a) nowhere in dagrt/codegen/*.py: a call of hash() / id() / object.__hash__, a mention of
+#     __hash__, or an import of a module whose results differ between processes (random, secrets,
+#     uuid, time, datetime, os, socket, threading, multiprocessing, tempfile, hashlib is NOT in the
+#     list: a digest of the text of a name is a function of the name);
+# (b) closed world for the name-mapping definitions: every free name and every attribute they
+#     mention is in the vetted list below (a new helper such as a truncating translate function,
+#     a set()/set display/set comprehension, hash, id, sorted-less iteration helpers ... is a
+#     ShapeError naming the definition and the new identifiers); the names they import are bound
+#     by the expected `from ... import` only; `_ident_chars` has its exact text (a set used for
+#     membership only).
+#     pytools.UniqueNameGenerator itself is outside /repo (trusted, C13 models it).
+
+PROCESS_DEPENDENT_MODULES = {"random", "secrets", "uuid", "time", "datetime", "os", "socket", "threading",
+                             "multiprocessing", "tempfile", "weakref", "gc", "ctypes"}
+PROCESS_DEPENDENT_CALLS = {"hash", "id", "object", "vars", "globals", "locals", "dir"}
+# `object` / `vars` / `dir` ... never occur in dagrt/codegen today; listing them keeps
+# `object.__hash__(x)`, `vars(x)` (dict of a namespace) and friends from slipping in unseen.
+
+NAME_MAPPING_DEFS = {
+    # file -> {top-level definition -> (free names loaded, attributes mentioned)}
+    "fortran.py": {
+        "_CaseInsensitiveUniqueNameGenerator": (
+            {"UniqueNameGenerator", "any", "name", "existing", "self"},
+            {"lower", "existing_names"}),
+        "FortranNameManager": (
+            {"KeyToUniqueNameMap", "_CaseInsensitiveUniqueNameGenerator", "is_state_variable", "self", "var",
+             "prefix", "name", "qualified_with_state"},
+            {"name_generator", "local_map", "global_map", "function_map", "get_or_make_name_for_key",
+             "startswith", "get_mapped_identifier_without_key", "is_name_conflicting", "name_global",
+             "name_local"}),
+    },
+    "python.py": {
+        "PythonNameManager": (
+            {"KeyToUniqueNameMap", "is_state_variable", "iter", "self", "name", "local", "function"},
+            {"_local_map", "_global_map", "function_map", "get_or_make_name_for_key", "name_global",
+             "name_local"}),
+    },
+    "utils.py": {
+        "make_identifier_from_name": (
+            {"_ident_chars", "c", "name", "result", "default_identifier"},
+            {"join", "lstrip"}),
+        "_KeyTranslatingUniqueNameGeneratorWrapper": (
+            {"self", "generator", "translate", "name", "key"},
+            {"_generator", "_translate", "add_name"}),
+        "KeyToUniqueNameMap": (
+            {"make_identifier_from_name", "UniqueNameGenerator", "_KeyTranslatingUniqueNameGeneratorWrapper",
+             "dict", "iter", "TypeError", "KeyError", "self", "start", "forced_prefix", "key_translate_func",
+             "name_generator", "existing_name", "key", "prefix", "seed", "new_name", "name"},
+            {"_dict", "_generator", "values", "startswith", "forced_prefix", "add_name", "keys"}),
+    },
+}
+NAME_MAPPING_IMPORTS = {
+    # file -> {name -> module it must be imported from (and bound by nothing else at module level)}
+    "fortran.py": {"KeyToUniqueNameMap": "dagrt.codegen.utils", "make_identifier_from_name": "dagrt.codegen.utils",
+                   "UniqueNameGenerator": "pytools", "is_state_variable": "dagrt.utils"},
+    "python.py": {"KeyToUniqueNameMap": "dagrt.codegen.utils", "is_state_variable": "dagrt.utils"},
+    "utils.py": {"UniqueNameGenerator": "pytools", "ascii_letters": "string", "digits": "string"},
+}
+IDENT_CHARS = "_ident_chars = set('_' + ascii_letters + digits)"
+
+
+def _bound_at_module_level(tree):
+    """name -> list of descriptions of what binds it at module level"""
+    out = {}
+    for n in tree.body:
+        if isinstance(n, ast.ImportFrom):
+            for a in n.names:
+                out.setdefault(a.asname or a.name, []).append("from %s" % n.module)
+        elif isinstance(n, ast.Import):
+            for a in n.names:
+                out.setdefault((a.asname or a.name).split(".")[0], []).append("import %s" % a.name)
+        elif isinstance(n, (ast.FunctionDef, ast.ClassDef)):
+            out.setdefault(n.name, []).append("def")
+        elif isinstance(n, (ast.Assign, ast.AnnAssign, ast.AugAssign)):
+            targets = n.targets if isinstance(n, ast.Assign) else [n.target]
+            for t in targets:
+                for x in ast.walk(t):
+                    if isinstance(x, ast.Name):
+                        out.setdefault(x.id, []).append("assign")
+    return out
+
+
+def check_name_mapping(repo):
+    """(a) and (b) above; returns counts for the generated comment."""
+    d = os.path.join(repo, CODEGEN)
+    hits = []
+    for f in sorted(os.listdir(d)):
+        if not f.endswith(".py"):
+            continue
+        tree = _parse(repo, CODEGEN + "/" + f)
+        for n in ast.walk(tree):
+            if isinstance(n, ast.Call) and isinstance(n.func, ast.Name) and n.func.id in PROCESS_DEPENDENT_CALLS:
+                hits.append("%s:%d calls %s()" % (f, n.lineno, n.func.id))
+            elif isinstance(n, ast.Attribute) and n.attr in ("__hash__", "__sizeof__"):
+                hits.append("%s:%d mentions %s" % (f, n.lineno, n.attr))
+            elif isinstance(n, ast.Name) and n.id in ("hash", "id") and isinstance(n.ctx, ast.Load):
+                hits.append("%s:%d mentions %s" % (f, n.lineno, n.id))
+            elif isinstance(n, ast.Import):
+                for a in n.names:
+                    if a.name.split(".")[0] in PROCESS_DEPENDENT_MODULES:
+                        hits.append("%s:%d imports %s" % (f, n.lineno, a.name))
+            elif isinstance(n, ast.ImportFrom) and (n.module or "").split(".")[0] in PROCESS_DEPENDENT_MODULES:
+                hits.append("%s:%d imports from %s" % (f, n.lineno, n.module))
+    if hits:
+        raise ShapeError("dagrt/codegen uses something whose value differs between interpreter processes: %s"
+                         % "; ".join(sorted(set(hits))[:8]))
+
+    n_defs = 0
+    for f, defs in NAME_MAPPING_DEFS.items():
+        tree = _parse(repo, CODEGEN + "/" + f)
+        bound = _bound_at_module_level(tree)
+        for name, module in NAME_MAPPING_IMPORTS[f].items():
+            if bound.get(name) != ["from %s" % module]:
+                raise ShapeError("%s: %s is expected to be bound by `from %s import` only, found %r"
+                                 % (f, name, module, bound.get(name)))
+        for dname, (names_ok, attrs_ok) in defs.items():
+            found = [n for n in tree.body if isinstance(n, (ast.FunctionDef, ast.ClassDef)) and n.name == dname]
+            if len(found) != 1:
+                raise ShapeError("%s: expected exactly one top-level definition %s, found %d"
+                                 % (f, dname, len(found)))
+            names, attrs, bad = set(), set(), []
+            for n in ast.walk(found[0]):
+                if isinstance(n, ast.Name) and isinstance(n.ctx, ast.Load):
+                    names.add(n.id)
+                elif isinstance(n, ast.Attribute):
+                    attrs.add(n.attr)
+                elif isinstance(n, (ast.Set, ast.SetComp, ast.Import, ast.ImportFrom, ast.Global, ast.Nonlocal,
+                                    ast.Lambda)):
+                    bad.append("%s at line %d" % (type(n).__name__, n.lineno))
+            new_names, new_attrs = sorted(names - names_ok), sorted(attrs - attrs_ok)
+            if new_names or new_attrs or bad:
+                raise ShapeError("%s %s (name mapping): not vetted -- new names %r, new attributes %r, "
+                                 "constructs %r" % (f, dname, new_names, new_attrs, bad))
+            n_defs += 1
+        if f == "utils.py":
+            ic = [_src(n) for n in tree.body if isinstance(n, ast.Assign) and "_ident_chars" in _src(n)]
+            if ic != [IDENT_CHARS]:
+                raise ShapeError("utils.py: _ident_chars not recognised: %r" % ic)
+    return n_defs
+
+
 def generate(repo):
     flags = shapes(repo)
     cats, total = check_sites(repo, flags)
+    n_name_defs = check_name_mapping(repo)
     out = [HEADER % "c15"]
     out.append("(* dagrt/codegen/transform.py SelfDependencyEliminator.map_statement *)")
     out.append("Definition selfdep_sorted : bool := %s." % coq_bool(flags["selfdep_sorted"]))
@@ -619,4 +767,7 @@ def generate(repo):
     out.append("(* structural tie: %d iteration sites of dagrt/codegen/*.py outside the syntactic whitelist,"
                % total)
     out.append("   all vetted: %s *)" % ", ".join("%s %d" % kv for kv in sorted(cats.items())))
+    out.append("(* name mapping: %d definitions (FortranNameManager, PythonNameManager, KeyToUniqueNameMap, "
+               "make_identifier_from_name, ...) mention vetted names only; no hash()/id()/__hash__ and no "
+               "process-dependent module anywhere in dagrt/codegen *)" % n_name_defs)
     return "\n".join(out) + "\n"
